@@ -29,6 +29,13 @@ Print Assumptions C13_thread_local_is_private.
 Theorem C13_spawn_fresh : forall past pa c k, last_thrd k c (past ++ [OSpawn pa c]) = None.
 Proof. exact spawn_fresh. Qed.
 Print Assumptions C13_spawn_fresh.
+(* any other library call (the model's OCall: a successful call or a query of an entry point that is not a registration)
+   leaves every dispatch decision and every later registration result as it was *)
+Theorem C13_other_calls_do_not_register : forall past k t t',
+  dispatch_spec k t (past ++ [OCall t']) = dispatch_spec k t past /\
+  last_glob k (past ++ [OCall t']) = last_glob k past /\ last_thrd k t (past ++ [OCall t']) = last_thrd k t past.
+Proof. intros. split; [apply kinds_independent; exact I|]. rewrite last_glob_snoc, last_thrd_snoc. split; reflexivity. Qed.
+Print Assumptions C13_other_calls_do_not_register.
 (* non-vacuity: a history with three threads, both kinds, NULL resets *)
 Example C13_example :
   run_hist h_init [OViolate KStr 0; OSet KStr 0 (Some 1); OThrdSet KStr 0 (Some 2); OSpawn 0 1; OViolate KStr 1;
